@@ -207,7 +207,7 @@ def _step(op, keys):
 
 def run(tier, seed, rec):
     quick = tier == "quick"
-    n_ex, steps, shards = (125, 50, 16) if quick else (1500, 50, 32)
+    n_ex, steps, shards = (125, 50, 16) if quick else (600, 50, 32)
     common.pool_merge(_shard, [(seed, i, n_ex, steps) for i in range(shards)], rec)
     L = 4 if quick else 5
     jobs = []
